@@ -260,9 +260,9 @@ def _ins(p):
     return p
 
 
-def _pat(name, shape, first=1):
+def _pat(name, shape, first=1, single=False):
     blocks = [G.blk([("deq", first + i)], k, i + 1) for i, k in enumerate(shape)]
-    return _ins(G.pattern(name, blocks))
+    return _ins(G.pattern(name, blocks, (), (), single))
 
 
 PATS = {
@@ -272,6 +272,8 @@ PATS = {
     "opt": [(1, [_pat(1, ["R", "RO", "R"])])],
     "neg": [(1, [_pat(1, ["R", "RN", "R"])])],
     "two": [(1, [_pat(1, ["R", "R", "R"])]), (2, [_pat(2, ["R", "R", "R"], 4)])],
+    # a pattern with many runs next to a singleton pattern (its runs are started on one instance only in the scenarios)
+    "mix": [(1, [_pat(1, ["R", "R", "R"])]), (2, [_pat(2, ["R", "R", "R"], 4, True)])],
 }
 
 
